@@ -279,7 +279,7 @@ impl<C: Config, Q: Query> Snapshot<C, Q> {
                 .executor_registry
                 .get_executor_entry_by_type_id(&callee.stable_type_id());
 
-            let _ = entry
+            let repaired = entry
                 .repair_query_from_query_id(
                     engine,
                     &callee.compact_hash_128(),
@@ -297,6 +297,14 @@ impl<C: Config, Q: Query> Snapshot<C, Q> {
                     ),
                 )
                 .await;
+
+            // the callee is (transitively) waiting for this very query: a
+            // dependency cycle has appeared since the last run. The stored
+            // result predates the cycle and must not be verified as clean;
+            // re-executing lets the cycle detection assign the cycle default.
+            if repaired.is_err() {
+                return CalleeCheckDecision::Recompute;
+            }
         }
 
         let mut repair_transitive_firewall_callees = false;
@@ -309,12 +317,17 @@ impl<C: Config, Q: Query> Snapshot<C, Q> {
             let callee_node_info =
                 unsafe { engine.get_node_info_unchecked(callee).await };
 
+            // a dependency that was requested but never observed: the last
+            // run was cut short at this request by the cycle detection.
+            // Whether the cycle still exists can only be found out by
+            // executing again.
+            let Some(observation) = forward_edge_observation.0.get(callee)
+            else {
+                return CalleeCheckDecision::Recompute;
+            };
+
             let value_fingerprint_diff = callee_node_info.value_fingerprint()
-                != forward_edge_observation
-                    .0
-                    .get(callee)
-                    .unwrap()
-                    .seen_value_fingerprint;
+                != observation.seen_value_fingerprint;
 
             // if any of the callee's value fingerprint differs, we need to
             // recompute
@@ -326,11 +339,7 @@ impl<C: Config, Q: Query> Snapshot<C, Q> {
             if !kind.is_firewall() {
                 let tfc_fingerprint_diff = callee_node_info
                     .transitive_firewall_callees_fingerprint()
-                    != forward_edge_observation
-                        .0
-                        .get(callee)
-                        .unwrap()
-                        .seen_transitive_firewall_callees_fingerprint;
+                    != observation.seen_transitive_firewall_callees_fingerprint;
 
                 if tfc_fingerprint_diff {
                     repair_transitive_firewall_callees = true;
